@@ -633,8 +633,12 @@ func (configgen *ConfigGeneratorImpl) buildOutboundClusters(cb *ClusterBuilder, 
 			if clusterKey.endpointBuilder != nil {
 				// This is set only for DNS clusters.
 				lbEndpoints = clusterKey.endpointBuilder.FromServiceEndpoints()
-				if len(lbEndpoints) > 0 {
-					istioEndpoints := clusterKey.endpointBuilder.IstioEndpoints()
+				// The wrapper pairs IstioEndpoints[i] with LbEndpoints[i] of the first locality group. That only holds
+				// when all endpoints are in that one group; with endpoints in several localities (or endpoints left
+				// out of the load assignment) the index of an IstioEndpoint ran past the group's LbEndpoints and
+				// applyFailoverPriorityPerLocality panicked. Without the wrapper failoverPriority is not applied.
+				if istioEndpoints := clusterKey.endpointBuilder.IstioEndpoints(); len(lbEndpoints) == 1 &&
+					len(istioEndpoints) == len(lbEndpoints[0].LbEndpoints) {
 					dnsWrappedLocalityLbEndpoints = &loadbalancer.WrappedLocalityLbEndpoints{
 						IstioEndpoints: istioEndpoints,
 						// For DNS clusters, we only have one locality lb endpoint
